@@ -2,6 +2,7 @@
 from harness import dstprops, hcommon, hprop_run
 
 PROP = "C13"
+EXTRA_PROPS = ("C13b",)     # closed form: Check Limit Reached exactly at the L-th expiry, any L
 
 
 def proj(kind, d):
@@ -25,7 +26,7 @@ def run(tier, seed):
         "every subset of late File Data PDUs of files with <= 3 segments x arrival slot relative to the check-timer expiries "
         "(all slots in thorough, sampled in quick) x check limit 1..3 x closure x CRC-32/CRC-32C; sender clause: unacknowledged puts with closure, "
         "1-3 transactions on one sender, Finished PDU never / before the expiry, idle gaps, clock in quarter intervals; distinct = (config class, "
-        "visited (step, op, exception) set)", theorem="c13_* (correspondence dest)", label="late data schedule")
+        "visited (step, op, exception) set)", theorem="c13_* (correspondence dest)", label="late data schedule", extra_gate=EXTRA_PROPS)
 
 
 def replay(path):
